@@ -50,6 +50,7 @@ static std::vector<std::string> transcript(const Api& a, const Case& c, Info* in
         { auto t = toks; std::swap(t[(uint8_t)mut[3] % 16], t[(uint8_t)mut[4] % 16]); inputs.push_back({"swapped", lib::join(t)}); }
         { auto t = comp; t[(uint8_t)mut[5] % 16] = "\xc3\xa9t\xc3\xa9"; inputs.push_back({"foreign-word", lib::join(t)}); }
         { auto t = comp; t.pop_back(); inputs.push_back({"15-words-nbsp", lib::join(t, "\xc2\xa0")}); }
+        inputs.push_back({"separators-removed", lib::join(comp, "")}); inputs.push_back({"separators-removed-decomposed", lib::join(toks, "")});
     }
     inputs.push_back({"bom-prefixed", "\xef\xbb\xbf" + phrase}); inputs.push_back({"zwsp-prefixed", "\xe2\x80\x8b" + model::nfkd(phrase)}); inputs.push_back({"nbsp-suffixed", phrase + "\xc2\xa0"});
     inputs.push_back({"raw", c.bytes("raw").substr(0, c.bytes("raw").find('\0'))});
